@@ -551,6 +551,25 @@ def _parse_duration(value: str) -> timedelta:
     return timedelta(microseconds=int(seconds * 10**6))
 
 
+def _equal_up_to_nan(left: Any, right: Any) -> bool:
+    """
+    Equality which considers two nan values to be the same for the purposes of
+    comparing messages (otherwise a message is not equal to itself), also inside
+    repeated and map fields.
+    """
+    if isinstance(left, float) and isinstance(right, float):
+        return left == right or (math.isnan(left) and math.isnan(right))
+    if isinstance(left, list) and isinstance(right, list):
+        return len(left) == len(right) and all(
+            _equal_up_to_nan(a, b) for a, b in zip(left, right)
+        )
+    if isinstance(left, dict) and isinstance(right, dict):
+        return left.keys() == right.keys() and all(
+            _equal_up_to_nan(left[key], right[key]) for key in left
+        )
+    return left == right
+
+
 def _dump_float(value: float) -> Union[float, str]:
     """Dump the given float to JSON
 
@@ -848,19 +867,8 @@ class Message(ABC):
             elif other_val is PLACEHOLDER:
                 other_val = other._get_field_default(field_name)
 
-            if self_val != other_val:
-                # We consider two nan values to be the same for the
-                # purposes of comparing messages (otherwise a message
-                # is not equal to itself)
-                if (
-                    isinstance(self_val, float)
-                    and isinstance(other_val, float)
-                    and math.isnan(self_val)
-                    and math.isnan(other_val)
-                ):
-                    continue
-                else:
-                    return False
+            if self_val != other_val and not _equal_up_to_nan(self_val, other_val):
+                return False
 
         return True
 
